@@ -301,7 +301,12 @@ func c11Type5(c *h.Ctx, n int) {
 		}
 		tA, errFA := sA.FinalizeTokens(respA)
 		if errFA == nil {
-			// a retry on the same state with the same response
+			// a retry on the same state with the same response — after ANOTHER request was created (and finalized) meanwhile
+			if sX, errX := client.CreateTokenRequestWithBlinds(chal, nonces, kid, iss.TokenKey(), bl2); errX == nil && i%2 == 0 {
+				if rX, e := iss.Evaluate(sX.Request()); e == nil {
+					sX.FinalizeTokens(rX)
+				}
+			}
 			tAgain, errAgain := sA.FinalizeTokens(append([]byte{}, respA...))
 			same := errAgain == nil && len(tAgain) == len(tA)
 			for j := 0; same && j < len(tA); j++ {
